@@ -176,6 +176,31 @@ def check_routines(src: str) -> dict:
     return out
 
 
+def default_box(src: str):
+    """`bounds=[bounds.get(name, (lo, hi)) for name in p0]` in LocalScipyMinimizer.__call__ -> (lo, hi)"""
+    tree = ast.parse(src)
+    cls = next((n for n in tree.body if isinstance(n, ast.ClassDef) and n.name == "LocalScipyMinimizer"), None)
+    if cls is None:
+        raise Unsupported("LocalScipyMinimizer not found")
+    call = next((n for n in cls.body if isinstance(n, ast.FunctionDef) and n.name == "__call__"), None)
+    if call is None:
+        raise Unsupported("LocalScipyMinimizer.__call__ not found")
+    for node in ast.walk(call):
+        if isinstance(node, ast.Call) and ast.unparse(node.func) == "minimize":
+            kw = {k.arg: k.value for k in node.keywords}
+            b = kw.get("bounds")
+            if (isinstance(b, ast.ListComp) and len(b.generators) == 1 and not b.generators[0].ifs
+                    and ast.unparse(b.generators[0].iter) == "p0" and isinstance(b.generators[0].target, ast.Name)
+                    and isinstance(b.elt, ast.Call) and ast.unparse(b.elt.func) == "bounds.get" and len(b.elt.args) == 2
+                    and ast.unparse(b.elt.args[0]) == b.generators[0].target.id):
+                lo, hi = ast.literal_eval(b.elt.args[1])
+                if ast.unparse(kw.get("x0")) != "list(p0.values())":
+                    raise Unsupported("x0 is not list(p0.values())")
+                return Fraction(repr(float(lo))), Fraction(repr(float(hi)))
+            raise Unsupported("bounds= of the minimize call changed shape: " + (ast.unparse(b) if b is not None else "missing"))
+    raise Unsupported("no minimize(...) call in LocalScipyMinimizer.__call__")
+
+
 def render(repo: Path) -> str:
     losses_src = (repo / "src/mxlpy/fit/losses.py").read_text()
     tree = ast.parse(losses_src)
@@ -188,6 +213,7 @@ def render(repo: Path) -> str:
         needs[fn.name] = cls
     check_settings((repo / "src/mxlpy/fit/abstract.py").read_text())
     defaults = check_routines((repo / "src/mxlpy/fit/routines.py").read_text())
+    lo, hi = default_box((repo / "src/mxlpy/minimizers/_scipy.py").read_text())
     shipped = ", ".join(f'"{n}"' for n in sorted(names))
     rat_ok = [n for n in names if set(needs[n]) <= {"HasAbs"}]
     rat_cases = "\n".join(f'  | "{n}" => some ({n} d p)' for n in sorted(rat_ok))
@@ -209,6 +235,8 @@ def render(repo: Path) -> str:
         "def fitCopiesByDefault : Bool := true\n"
         f"/-- default `loss_fn` of steady_state / time_course / protocol_time_course -/\n"
         f"def defaultLoss : List String := [{', '.join(chr(34) + defaults[k] + chr(34) for k in ('steady_state', 'time_course', 'protocol_time_course'))}]\n\n"
+        "/-- the box `LocalScipyMinimizer` applies to a parameter without explicit bounds -/\n"
+        f"def defaultBox : Rat × Rat := (({lo.numerator} : Rat) / {lo.denominator}, ({hi.numerator} : Rat) / {hi.denominator})\n\n"
         "/-- the losses that need no sqrt/log, evaluated at Rat by the driver -/\n"
         "def evalRat (name : String) (d p : List Rat) : Option Rat :=\n  match name with\n"
         + rat_cases + "\n  | _ => none\n\n"
@@ -233,6 +261,7 @@ def generate(repo: Path, outdir: Path) -> None:
                               "namespace Mxl.C20.Gen\n"
                               f"/- {str(e)[:600].replace('-/', '- /')} -/\n"
                               "def shipped : List String := []\n"
+                              "def defaultBox : Rat × Rat := (0, 0)\n"
                               "def evalRat (name : String) (d p : List Rat) : Option Rat := none\n"
                               "end Mxl.C20.Gen\n")
         raise
